@@ -117,6 +117,11 @@ type StreamObserver interface {
 	AfterStep(pipe *pipeline.Pipeline, blk *CBlock, step bstream.StepType, err error)
 }
 
+// StreamStartObserver is told about a pipeline before its first block (stores set up, nothing processed yet).
+type StreamStartObserver interface {
+	BeforeStream(pipe *pipeline.Pipeline)
+}
+
 type simStream struct {
 	env       *Env
 	node      string
@@ -168,6 +173,9 @@ func (s *simStream) deliver(blk *CBlock, obj *stepObj) error {
 
 func (s *simStream) Run(ctx context.Context) error {
 	c := s.env.Chain
+	if so, ok := s.obs.(StreamStartObserver); ok && s.pipe != nil {
+		so.BeforeStream(s.pipe)
+	}
 	if c.Fork != nil && !s.tier2 {
 		return s.runFork(ctx)
 	}
